@@ -670,11 +670,12 @@ func storeProbe(bc *blockchain.Blockchain, w *World, p *problems, sigPrefix stri
 }
 
 // restartFilter is what a new process would hold after initialising from this image.
-func restartFilter(img *memory.Database, pruning bool) (*core.RunningEventFilter, error) {
+func restartFilter(store db.KeyValueStore, pruning bool) (*core.RunningEventFilter, error) {
+	view := newOverlay(store)
 	if pruning {
-		return pruner.InitializeRunningEventFilter(img)
+		return pruner.InitializeRunningEventFilter(view)
 	}
-	return core.InitializeRunningEventFilter(img)
+	return core.InitializeRunningEventFilter(view)
 }
 
 // decodeSnapshot decodes bytes written by WriteRunningEventFilter.
